@@ -1,6 +1,7 @@
 import OV.Lemmas.C01Live
 import OV.Lemmas.C01Names
 import OV.Lemmas.C01Sim
+import OV.Lemmas.C01SimIf
 /-!
 # C01 — script functions mean the same eagerly, as an ONNX graph, and as plain Python
 
@@ -11,20 +12,24 @@ The property itself is the refinement
 
     convert f = .ok g → ∀ S fuel args vs, evalFunc S fuel f args = some vs → ∃ fuel', evalGraph S fuel' g args = some vs
 
-(`convert_correct`).  It is proved for the first stage only — straight-line functions
-(`convert_correct_partial`) — and it is **false in general for the code as it is**:
-`convert_correct_full_refuted` (parallel assignment, finding C01-D25), `liveness_sound_loops_refuted`
-(zero-trip loops, C01-D23), `while_break_drops_condition_witness` (C01-D27), `castable_lost_at_if_witness` (C01-D24).
+(`convert_correct`).  It is proved for straight-line functions incl. parallel assignment
+(`convert_correct_partial`) and for assignments with `if`/`else` nested to any depth
+(`convert_correct_ite_partial`); with loops it is still **false for the code as it is**:
+`loop_variable_not_rebound_witness` (C01-D31), `second_return_adds_output_witness` (C01-D33),
+`while_break_drops_condition_witness` (C01-D27), `castable_lost_at_if_witness` (C01-D24).  (C01-D23 and C01-D25
+were fixed in /repo by 4304e8f / 87ad64d; the model follows, their witnesses are regression examples.)
 What *is* proved, for all inputs and all operator meanings:
 
 * `exprs_read_only_used_vars`   — `_used_vars` is sound for expression evaluation;
-* `liveness_sound_loopfree`     — the liveness equations of analysis.py are sound for every loop-free
-                                   statement at any nesting depth of `if` (the analysis decides which
-                                   variables an `If` exports: an unsound live set silently drops an output);
+* `liveness_sound`              — the liveness equations of analysis.py (as fixed by 4304e8f) are sound for every
+                                   statement, loops and trailing breaks included (the analysis decides which
+                                   variables an `If` exports and which a `Loop` carries: an unsound live set
+                                   silently drops an output); `liveness_sound_loopfree` is the unconditional
+                                   special case;
 * the refutations above, each from a concrete program that is replayed on the real converter
   (harness/corpus_c01.jsonl).
-Beyond straight-line code (if / for / while) the equivalence of source and emitted graph on the generated
-stream is *tested* (eager vs onnxruntime vs NumPy interpreter), not proved.
+For loops (`for` / `while`) the equivalence of source and emitted graph on the generated stream is *tested*
+(eager vs onnxruntime vs NumPy interpreter), not proved.
 -/
 namespace OV.Props.C01
 open OV.C01
@@ -46,6 +51,26 @@ theorem liveness_sound_loopfree {V : Type} (S : Sem V) (fuel : Nat) (st : Stmt) 
     OutRel lo (evalStmt S fuel st ρ1) (evalStmt S fuel st ρ2) :=
   liveStmt_sound S fuel st lo ρ1 ρ2 hlf h
 
+/-- **Liveness is sound, loops included** (the equations as fixed by commit 4304e8f).  For every statement —
+straight-line code, `if`/`else`, `for`, `while`, trailing `if b: break`, nested to any depth — every live-out
+set `lo` and every operator meaning: two stores that agree on `live_in` as computed by
+`do_liveness_analysis` lead to runs that agree on `lo`: both fail (or diverge within the fuel), or both
+return the same values, or both fall through — or both leave through a `break` — with stores equal on every
+variable of `lo`.  Hypotheses: `break` occurs only where the converter accepts it (`noBrkS`: as the last
+statement of a loop body), and the model's fuel-bounded fixpoint iterations have converged (`stableStmt`,
+a decidable check the harness evaluates on every generated program; the real code iterates until stable). -/
+theorem liveness_sound {V : Type} (S : Sem V) (fuel : Nat) (st : Stmt) (lo : VSet)
+    (ρ1 ρ2 : Store V) (hbrk : noBrkS st = true) (hstable : stableStmt st lo = true)
+    (h : Agree (liveInStmt st lo) ρ1 ρ2) :
+    OutRelB lo (evalStmt S fuel st ρ1) (evalStmt S fuel st ρ2) :=
+  liveStmtB S fuel st lo ρ1 ρ2 hbrk hstable h
+
+/-- Non-vacuity: a `for` loop whose body overwrites `x` and ends in `if b: break`, with `x` live afterwards:
+the hypotheses hold and `x`, the bound `n` and the captured `y` are all live before the loop. -/
+example :
+    let st : Stmt := .for_ "i" true (.var "n") [.assign "x" (.var "y"), .assign "b" (.var "y"), .brk (.var "b")]
+    noBrkS st = true ∧ stableStmt st ["x"] = true ∧ liveInStmt st ["x"] = ["n", "x", "y"] := by decide
+
 /-- Non-vacuity: an `if` that assigns `x` in one branch only; `x`, `c` and `A` are live before it. -/
 example : loopFree (.ite (.var "c") [.assign "x" (.var "A")] []) = true
     ∧ liveInStmt (.ite (.var "c") [.assign "x" (.var "A")] []) ["x"] = ["A", "c", "x"] := by decide
@@ -53,7 +78,7 @@ example : loopFree (.ite (.var "c") [.assign "x" (.var "A")] []) = true
 /-! ### The refinement, first stage: straight-line functions -/
 
 /-- **`convert_correct`, stage 1 (straight-line code).**  For every function whose body is a sequence of
-assignments `x = <expr>` (any expression of the subset: names, literals, `op.X(...)` calls with attributes,
+assignments `x = <expr>` or parallel assignments `x, y = <expr>, <expr>` (any expression of the subset: names, literals, `op.X(...)` calls with attributes,
 calls of other script functions, Python binary / unary / comparison operators incl. `!=`, negated literals,
 `%` with a float) followed by `return e1, …, en`, whose parameters are all tensors with distinct names:
 whenever the model converter accepts it and reading the source as plain Python over tensors — literals
@@ -62,8 +87,8 @@ sharing the type variable) — yields outputs `vs`, the emitted graph evaluates 
 input and **every** meaning of the operators.  Two named assumptions about operators: `Constant` of a
 literal always evaluates (`hConst`), and `Identity` is the identity (`hId`; the converter copies returned
 inputs and duplicate outputs through `Identity`).
-`_partial`: `if` / `for` / `while` / tuple and parallel assignment and attribute parameters are not covered;
-for parallel assignment and loops the statement is in fact false for the code as it is (below). -/
+`_partial`: `if` / `for` / `while` / tuple assignment and attribute parameters are not covered; for `while`
+with a trailing break and for literals crossing an `if` the statement is false for the code as it is (below). -/
 theorem convert_correct_partial {V : Type} (S : Sem V)
     (hConst : ∀ l, ∃ c, constOf S l = some c)
     (hId : ∀ v, S.op "" "Identity" [some v] [] = some [v])
@@ -101,7 +126,51 @@ example : straightLine slDemo.body = true ∧ (convert slDemo).toOption.isSome =
     ∧ evalFunc Sdemo 0 slDemo [4, 5] = some [0, 4] := by
   refine ⟨by decide, by decide +kernel, by decide +kernel⟩
 
-/-! ### The same statement with loops is false (finding C01-D23) -/
+/-! ### The refinement, second stage: nested `if`/`else` -/
+
+/-- **`convert_correct`, stage 2 (straight-line code with `if`/`else` nested to any depth).**  For every
+function whose body consists of assignments and parallel assignments of tensor-valued expressions (anything
+but a bare or negated literal), docstrings, and `if <expr>: … else: …` over such statements — branches may
+assign a variable in one branch only, define new variables, alias outer values, nest further `if`s — followed
+by `return e1, …, en`, with tensor parameters of distinct names: whenever the model converter accepts it and
+reading the source as plain Python over tensors yields outputs `vs`, the emitted graph — `If` nodes with
+subgraphs, their outputs `assigned ∩ live_out`, `Identity` copies of outer values — evaluates to exactly `vs`,
+for **every** input and **every** meaning of the operators (`Constant` total, `Identity` the identity).
+The proof is a forward simulation whose invariant relates only the *live* Python variables to ONNX values
+(`OV.C01.Inv`); it uses `liveness` pass-through, the freshness and scoping theorems of C02, and the castable
+bookkeeping of the un-executed branch.
+`_partial`: loops are not covered (for `while` with a trailing break and for a loop variable used after the
+loop the statement is false for the code as it is: C01-D27, C01-D31), nor tuple assignment and attribute
+parameters; a bare literal may not be *assigned* (it would lose its polymorphism at the `If` boundary: C01-D24). -/
+theorem convert_correct_ite_partial {V : Type} (S : Sem V)
+    (hConst : ∀ l, ∃ c, constOf S l = some c)
+    (hId : ∀ v, S.op "" "Identity" [some v] [] = some [v])
+    (f : Func) (g : Graph) (hil : ifLine f.body = true) (hten : AllTensorParams f.params)
+    (hnames : (f.params.map Param.name).Nodup) (h : convert f = .ok g)
+    (fuel : Nat) (args vs : List V) (he : evalFunc S fuel f args = some vs) :
+    evalGraph S fuel g args = some vs :=
+  convert_correct_if S hConst hId hil hten hnames h he
+
+/-- Non-vacuity: `x = A + 1; if c: y = x != B  else: (if d: y = x  else: x = B; y = x + 1); return y, x` —
+`y` defined in both branches, `x` re-assigned in one inner branch only, an outer value aliased in a branch. -/
+def ifDemo : Func :=
+  { name := "f", params := [.tensor "A", .tensor "B", .tensor "c", .tensor "d"], retCount := none,
+    body := [
+      .assign "x" (.binop "Add" (.var "A") (.lit (.int 1))),
+      .ite (.var "c")
+        [.assign "y" (.cmp "NotEq" (.var "x") (.var "B"))]
+        [.ite (.var "d")
+          [.assign "y" (.var "x")]
+          [.assign "x" (.var "B"), .assign "y" (.binop "Add" (.var "x") (.lit (.int 1)))]],
+      .ret [.var "y", .var "x"] false] }
+
+example : ifLine ifDemo.body = true ∧ (convert ifDemo).toOption.isSome = true
+    ∧ evalFunc Sdemo 0 ifDemo [4, 7, 0, 0] = some [8, 7]
+    ∧ evalFunc Sdemo 0 ifDemo [4, 7, 0, 1] = some [5, 5]
+    ∧ evalFunc Sdemo 0 ifDemo [4, 5, 1, 0] = some [0, 5] := by
+  refine ⟨by decide, by decide +kernel, by decide +kernel, by decide +kernel, by decide +kernel⟩
+
+/-! ### Regression witnesses of the two fixed findings C01-D23 (4304e8f) and C01-D25 (87ad64d) -/
 
 /-- A concrete meaning of operators over `Int` (only what the witnesses use). -/
 def S0 : Sem Int where
@@ -118,43 +187,18 @@ def S0 : Sem Int where
   ofNat := fun n => Int.ofNat n
   ofBool := fun b => if b then 1 else 0
 
+/-- `for i in range(n): x = y` with `x` live afterwards: before fix 4304e8f the analysis reported
+`live_in = {y}` (the zero-trip path and the loop bound were missing, finding C01-D23); now `n`, `x`, `y`. -/
 def zeroTrip : Stmt := .for_ "i" true (.var "n") [.assign "x" (.var "y")]
 
-def st1 : Store Int := fun v =>
-  if v = "n" then some (.t 0) else if v = "x" then some (.t 1) else if v = "y" then some (.t 5) else none
-def st2 : Store Int := fun v =>
-  if v = "n" then some (.t 0) else if v = "x" then some (.t 2) else if v = "y" then some (.t 5) else none
-
-/-- **The liveness equations for loops are unsound** (analysis.py `do_visit`, `For`/`While`: the zero-trip
-path and the loop bound are missing).  For `for i in range(n): x = y` with `x` live afterwards the analysis
-reports `live_in = {y}`; two stores that agree on `y` but differ on `x` give, for `n = 0`, results that
-differ on `x`. -/
-theorem liveness_sound_loops_refuted :
-    ¬ (∀ (S : Sem Int) (fuel : Nat) (st : Stmt) (lo : VSet) (ρ1 ρ2 : Store Int),
-        Agree (liveInStmt st lo) ρ1 ρ2 → OutRel lo (evalStmt S fuel st ρ1) (evalStmt S fuel st ρ2)) := by
-  intro h
-  have hl : liveInStmt zeroTrip ["x"] = ["y"] := by decide
-  have hag : Agree (liveInStmt zeroTrip ["x"]) st1 st2 := by
-    rw [hl]
-    intro v hv
-    simp only [List.mem_singleton] at hv
-    subst hv
-    rfl
-  have hr := h S0 1 zeroTrip ["x"] st1 st2 hag
-  have e1 : evalStmt S0 1 zeroTrip st1 = some (.normal st1) := by
-    simp [zeroTrip, evalStmt, evalExpr, st1, natPV, S0, iterFor]
-  have e2 : evalStmt S0 1 zeroTrip st2 = some (.normal st2) := by
-    simp [zeroTrip, evalStmt, evalExpr, st2, natPV, S0, iterFor]
-  rw [e1, e2] at hr
-  have := hr "x" (by simp)
-  simp [st1, st2] at this
-
-/-! ### The refinement itself is false for the code as it is (finding C01-D25) -/
+example : liveInStmt zeroTrip ["x"] = ["n", "x", "y"] := by decide
 
 def tsig : Sig := { known := true, variadic := false, homog := true, tvs := [some "T"] }
 def tsig2 : Sig := { known := true, variadic := false, homog := true, tvs := [some "T", some "T"] }
 
-/-- `x = Neg(A); y = Abs(B); x, y = y, x; return Sub(x, y)` -/
+/-- `x = Neg(A); y = Abs(B); x, y = y, x; return Sub(x, y)` — before fix 87ad64d the graph computed
+`Sub(y, y)` (finding C01-D25).  It is straight-line, so `convert_correct_partial` covers it; concretely, on
+`A = 1, B = 10` source and graph both give `11`. -/
 def swapProg : Func :=
   { name := "f", params := [.tensor "A", .tensor "B"], retCount := none,
     body := [
@@ -163,29 +207,47 @@ def swapProg : Func :=
       .par ["x", "y"] [.var "y", .var "x"],
       .ret [.call "" "Sub" tsig2 [.var "x", .var "y"] []] false] }
 
-/-- **`convert_correct`, the property, does not hold for the converter as it is** (finding C01-D25):
-the parallel assignment `x, y = y, x` is translated pair by pair.  On `A = 1, B = 10` plain Python (and
-eager mode) return `Sub(10, -1) = 11`; the emitted graph computes `Sub(y, y) = 0` for every fuel. -/
-theorem convert_correct_full_refuted :
-    ¬ (∀ (f : Func) (g : Graph) (S : Sem Int) (fuel : Nat) (args vs : List Int),
-        convert f = .ok g → evalFunc S fuel f args = some vs →
-        ∃ fuel', evalGraph S fuel' g args = some vs) := by
-  intro h
-  have key : (match convert swapProg with
-      | .ok g => opsOnly g.nodes && (evalGraph S0 0 g [1, 10] == some [0])
-      | .error _ => false) = true := by decide +kernel
-  have hpy : evalFunc S0 0 swapProg [1, 10] = some [11] := by decide +kernel
-  cases hc : convert swapProg with
-  | error e => rw [hc] at key; cases key
-  | ok g =>
-    rw [hc] at key
-    simp only [Bool.and_eq_true, beq_iff_eq] at key
-    obtain ⟨fuel', hg⟩ := h swapProg g S0 0 [1, 10] [11] hc hpy
-    have : evalGraph S0 fuel' g [1, 10] = evalGraph S0 0 g [1, 10] := by
-      unfold evalGraph
-      rw [evalNodes_opsOnly_fuel S0 fuel' 0 _ _ key.1]
-    rw [this, key.2] at hg
-    cases hg
+example : straightLine swapProg.body = true ∧ evalFunc S0 0 swapProg [1, 10] = some [11]
+    ∧ (match convert swapProg with
+       | .ok g => evalGraph S0 0 g [1, 10] == some [11]
+       | .error _ => false) = true := by
+  refine ⟨by decide, by decide +kernel, by decide +kernel⟩
+
+/-! ### Two more divergences with semantic witnesses (findings C01-D31, C01-D33) -/
+
+/-- `x = Identity(A); i = Add(A, A); for i in range(n): x = Add(x, A); return x, i` -/
+def loopVarProg : Func :=
+  { name := "f", params := [.tensor "A", .tensor "n"], retCount := none,
+    body := [
+      .assign "x" (.call "" "Identity" tsig [.var "A"] []),
+      .assign "i" (.call "" "Add" tsig2 [.var "A", .var "A"] []),
+      .for_ "i" true (.var "n") [.assign "x" (.call "" "Add" tsig2 [.var "x", .var "A"] [])],
+      .ret [.var "x", .var "i"] false] }
+
+/-- Finding C01-D31: the loop variable is bound only inside the body's scope, so after the loop the name `i`
+still denotes the pre-loop value in the graph (`A + A = 2`), while Python leaves the last index in it (`1`). -/
+theorem loop_variable_not_rebound_witness :
+    evalFunc S0 5 loopVarProg [1, 2] = some [3, 1]
+    ∧ (match convert loopVarProg with
+       | .ok g => evalGraph S0 5 g [1, 2] == some [3, 2]
+       | .error _ => false) = true := by
+  constructor <;> decide +kernel
+
+/-- `x = Neg(A); return x; return Abs(A)` -/
+def twoReturns : Func :=
+  { name := "f", params := [.tensor "A"], retCount := none,
+    body := [
+      .assign "x" (.call "" "Neg" tsig [.var "A"] []),
+      .ret [.var "x"] false,
+      .ret [.call "" "Abs" tsig [.var "A"] []] false] }
+
+/-- Finding C01-D33: every top-level `return` appends to the graph outputs; Python returns at the first one. -/
+theorem second_return_adds_output_witness :
+    evalFunc S0 0 twoReturns [5] = some [-5]
+    ∧ (match convert twoReturns with
+       | .ok g => evalGraph S0 0 g [5] == some [-5, 5]
+       | .error _ => false) = true := by
+  constructor <;> decide +kernel
 
 /-! ### Structural witnesses of two more divergences (findings C01-D27, C01-D24) -/
 
